@@ -126,8 +126,11 @@ def generated(seed, idx):
         return fam, [{"programs": [{"kind": "snippet", "source": c16.render(ir, n)}], "tape": [], "faults": sc["faults"],
                       "fs": {"c16mod": {"source": c16.C16MOD, "reads": []}, "c16bad": {"source": c16.C16BAD, "reads": []}}, "config": {"max_events": 64}}]
     sc = c01.PROP.generate(derive(seed, "C10-C01"), sub, "quick")
-    return fam, [{"programs": [{"kind": "snippet", "source": c01.render(sc["ir"])}], "tape": [], "faults": {},
-                  "fs": {"gcm": {"source": c01.GCM, "reads": []}}}]
+    fs = {"gcm": {"source": c01.GCM, "reads": []}}
+    for g_ in sc["ir"]["gadgets"]:
+        if g_[0] == "modfail":
+            fs["gcfail%d" % g_[1]] = {"source": c01.modfail_source(g_[1]), "reads": []}
+    return fam, [{"programs": [{"kind": "snippet", "source": c01.render(sc["ir"])}], "tape": [], "faults": {}, "fs": fs}]
 
 
 class C10:
